@@ -58,3 +58,47 @@ Example C02_nonvacuous :
   /\ rule_ifelse G (MSecret, BBool) (MPublic, BUInt) (MConst, BUInt)
      = Emit "IfElse" (MSecret, BUInt) [("this", 0%Z); ("arg_0", 1%Z); ("arg_1", 2%Z)].
 Proof. exact nonvacuous. Qed.
+
+(* ---- program level: EVERY program of the scalar fragment (literals of the three bases, inputs, random
+   values, all twenty binary operators, ~, to_public, if_else, k + x; any length).  If the tracer accepts the
+   program, the written rules (Spec/TypingSpec.v) type it, and every value bound — whatever the provenance of
+   its operands: inputs, literals, folded literals, results of earlier operations — has exactly the ruled type,
+   in the tracer and in the operation store.  The operator facts hold for ANY operand values. *)
+From NadaV.Model Require Import Surface Trace Compile Mir.
+From NadaV.Spec Require Import TypingSpec.
+From NadaV.Proofs Require Import C02Rules C02Program.
+
+Theorem C02_accepted_programs_are_typed_by_the_rules : forall ss fuel ρ s,
+  exec GenScalar.G fuel [] ss init_state = Ok (ρ, s) -> scalar_fragment ss = true ->
+  exists Γ, type_stmts ss [] = Some Γ
+    /\ Forall2 (fun b a => fst b = fst a /\ exists id v, snd b = BWrap (WScalar (snd a) id v)
+                           /\ forall i, id = Some i -> exists r, lookup i (store s) = Some r /\ r_ty r = TyName (Corr.mir_name (snd a)))
+               ρ Γ.
+Proof. exact accepted_programs_are_typed_by_the_rules. Qed.
+Print Assumptions C02_accepted_programs_are_typed_by_the_rules.
+
+(* ... and an operation the rules prohibit is rejected, whatever the operand values and provenance *)
+Theorem C02_prohibited_operations_are_rejected : forall o ta ida va tb idb vb s,
+  spec2 o ta tb = MustReject ->
+  match do_binop GenScalar.G o (WScalar ta ida va) (WScalar tb idb vb) s with Ok _ => False | _ => True end.
+Proof. exact prohibited_operations_are_rejected. Qed.
+Print Assumptions C02_prohibited_operations_are_rejected.
+
+Definition c02_example : list stmt :=
+  [SLet "s" (RInput "s" "P0" "" (IScalar (MSecret, BUInt)));
+   SLet "u" (RInput "u" "P0" "" (IScalar (MPublic, BUInt)));
+   SLet "k" (RLit BUInt 2); SLet "j" (RLit BUInt 5);
+   SLet "f" (RBin OMul "k" "j");                 (* folded literal *)
+   SLet "a" (RBin OLShift "u" "f");              (* public << folded literal *)
+   SLet "c" (RBin OLt "a" "s");
+   SLet "r" (RIfElse "c" "u" "a");
+   SLet "e" (RBin OPublicEquals "s" "r");
+   SLet "n" (RNot "e")].
+Example C02_program_nonvacuous :
+  scalar_fragment c02_example = true
+  /\ (exists ρ s, exec GenScalar.G 20 [] c02_example init_state = Ok (ρ, s))
+  /\ type_stmts c02_example []
+     = Some [("n", (MPublic, BBool)); ("e", (MPublic, BBool)); ("r", (MSecret, BUInt)); ("c", (MSecret, BBool));
+             ("a", (MPublic, BUInt)); ("f", (MConst, BUInt)); ("j", (MConst, BUInt)); ("k", (MConst, BUInt));
+             ("u", (MPublic, BUInt)); ("s", (MSecret, BUInt))].
+Proof. split; [reflexivity|]. split; [eexists; eexists; vm_compute; reflexivity | vm_compute; reflexivity]. Qed.
